@@ -3,12 +3,18 @@ pub mod c04;
 pub mod c12;
 pub mod c05;
 pub mod c06;
+pub mod c07;
 pub mod c10;
 pub mod c11;
 pub mod c16;
 pub mod c17;
 #[cfg(feature = "hash")]
 pub mod c18;
+pub mod apply;
+pub mod fixture;
+pub mod gen;
+pub mod refsql;
+pub mod spec;
 pub mod util;
 pub mod xspec;
 
@@ -21,6 +27,7 @@ pub fn lookup(prop: &str) -> Option<CheckFn> {
         "C12" => Some(c12::check),
         "C05" => Some(c05::check),
         "C06" => Some(c06::check),
+        "C07" => Some(c07::check),
         "C10" => Some(c10::check),
         "C11" => Some(c11::check),
         "C16" => Some(c16::check),
